@@ -76,7 +76,7 @@ struct Bud {
 impl Bud {
     fn step(&mut self, c: char) -> bool {
         self.s.push(c);
-        self.left -= 1;
+        self.left = self.left.saturating_sub(1);
         self.left > 0
     }
 }
